@@ -27,7 +27,7 @@ _Bool AbsLoadArrayScope_SerializeValue__ri32(struct AbsLoadArrayScope* s, int* v
   g_loaded++; return nondet_bool(); }
 #define F Detail_SerializeContainer_AbsLoadArrayScope_vvec_i32__rAbsLoadArrayScope_rvvec_i32
 #define VERIF_LOOP_Detail_SerializeContainer_AbsLoadArrayScope_vvec_i32__rAbsLoadArrayScope_rvvec_i32_1 \
-  __CPROVER_assigns(it, loadedItems, g_loaded, g_w_slot, g_w_done, g_deref_idx, __verif_exc, __verif_exc_code, __tmp1) \
+  __CPROVER_assigns(it, loadedItems, g_loaded, g_w_slot, g_w_done, g_deref_idx, __verif_exc, __verif_exc_code VERIF_TMPS_Detail_SerializeContainer_AbsLoadArrayScope_vvec_i32__rAbsLoadArrayScope_rvvec_i32) \
   __CPROVER_loop_invariant(__verif_exc == 0 && loadedItems == g_loaded && g_loaded <= g_n && it.idx == loadedItems && it.idx <= cont->size && cont == g_vec && (g_w >= g_loaded || (g_w_done && g_w_slot == g_w))) \
   __CPROVER_decreases(cont->size - it.idx)
 #define VERIF_LOOP_Detail_SerializeContainer_AbsLoadArrayScope_vvec_i32__rAbsLoadArrayScope_rvvec_i32_2 \
